@@ -26,7 +26,11 @@ void *mmap(void *addr, size_t len, int prot, int flags, int fd, off_t off)
 }
 int munmap(void *addr, size_t len) { VG_A(addr == vg_map, "munmap of the mapping"); vg_maps--; return 0; }
 int open(const char *path, int flags, ...) { int fd = nondet_int(); __CPROVER_assume(fd >= -1); if (fd >= 0) { vg_fds++; vg_opened_fd = fd; } return fd; }
+#ifdef VG_C18_RES
 int close(int fd) { VG_P("C18", fd == vg_opened_fd && vg_fds == 1, "only the descriptor the reader opened itself is closed, once"); vg_fds--; return 0; }
+#else
+int close(int fd) { return 0; }
+#endif
 char *getenv(const char *name)
 {
 	if (nondet_bool()) return NULL;
@@ -54,6 +58,9 @@ void h_reader_open(void)
 	in_opt.madvise_random = nondet_bool();
 	vg_file_size = nondet_long();
 	__CPROVER_assume(vg_file_size <= ((off_t)1 << 40));     /* any size incl. negative, up to 1 TiB */
+#ifdef VG_C18_RES
+	__CPROVER_assume(vg_file_size <= 640);                  /* resource accounting variant: every refusal path (short file, bad magic, index offset / length out of range) is reachable with a trailer plus a few bytes */
+#endif
 	_Bool in_use_opt = nondet_bool();
 	_Bool in_by_name = nondet_bool();
 	struct mtbl_reader *r;
@@ -67,9 +74,11 @@ void h_reader_open(void)
 		VG_P("C19", r->index->size == 0 || r->index->restart_offset <= r->index->size - 4, "index restart array starts inside the index block");
 		VG_P("C19", r->m.index_block_offset < r->len_data, "index offset lies inside the file");
 	}
+#ifdef VG_C18_RES
 	/* C18: whatever the outcome, the by-name open leaves no descriptor behind; a refused file leaves no mapping behind; a reader
 	 * that was returned releases its mapping when destroyed */
 	VG_P("C18", vg_fds == 0, "mtbl_reader_init closes the descriptor it opened on every path (also when the file does not open as a table)");
 	if (r == NULL) VG_P("C18", vg_maps == 0, "a file that does not open as a table leaves no mapping behind");
 	else { VG_P("C18", vg_maps == 1, "a reader holds exactly one mapping"); mtbl_reader_destroy(&r); VG_P("C18", vg_maps == 0 && r == NULL, "destroying the reader releases the mapping"); }
+#endif
 }
